@@ -18,11 +18,13 @@ import (
 	"go/parser"
 	"go/token"
 	"io"
+	"log"
 	"math/rand"
 	"os"
 	"os/exec"
 	"path/filepath"
 	"reflect"
+	"regexp"
 	"sort"
 	"strconv"
 	"strings"
@@ -499,11 +501,19 @@ func isASCII(s string) bool {
 // childMain runs config.Load in a child process: a malformed command line ends in
 // os.Exit(2) through flag.ExitOnError, which cannot be observed in-process.
 func childMain(spec string) {
-	var in struct{ Args, Env []string }
+	var in struct {
+		Args, Env   []string
+		Fingerprint bool
+	}
 	if err := json.Unmarshal([]byte(spec), &in); err != nil {
 		os.Exit(90)
 	}
+	log.SetOutput(io.Discard)
 	cfg, err := config.Load(in.Args, in.Env)
+	if in.Fingerprint {
+		fmt.Println("C15-FP " + fingerprintResult(cfg, err))
+		os.Exit(0)
+	}
 	switch {
 	case err != nil:
 		fmt.Println("C15-CHILD error")
@@ -744,6 +754,9 @@ func main() {
 
 	// ===== 5. glob.cache.size (sizes <= 0 included): rejected by Load, or accepted and runnable =====
 	genGlobCases(run, r)
+
+	// ===== 5b. histories: several Loads in this one process =====
+	genHistoryCases(run, r, opts)
 
 	// ===== 6. parseKVSlice, lex and the library models =====
 	genKVCases(run, r)
@@ -1035,16 +1048,46 @@ func randPropsFile(r *rand.Rand, opts []option) string {
 }
 
 // ---------- glob cache ----------
+// main.go:170 (newGrpcProxy) and main.go:194 (newHTTPProxy) call
+// route.NewGlobCache(cfg.GlobCacheSize) unconditionally: the cache is built whether or not
+// glob.matching.disabled is set.  So "accepted => runnable" is judged without looking at
+// that flag: every accepted configuration gets NewGlobCache(size) and lookups.
 func genGlobCases(run *vh.Run, r *rand.Rand) {
-	sizes := []int{-1000, -2, -1, 0, 0, 1, 1, 2, 3, 5, 1000}
-	for i := 0; i < run.Scale(50, 600); i++ {
-		size := sizes[i%len(sizes)]
-		if i >= 2*len(sizes) && i%3 == 0 {
-			size = r.Intn(12) - 3
+	sizeOpt := option{Name: "glob.cache.size", Kind: "int"}
+	disOpt := option{Name: "glob.matching.disabled", Kind: "bool"}
+	type combo struct {
+		size     int
+		disabled int // 0 not given, 1 true, 2 false
+		ks, kd   int // sources of the size and of the flag
+	}
+	var combos []combo
+	// every source pair for the sizes around the boundary, with the flag true / false
+	for _, size := range []int{-1000, -1, 0, 1} {
+		for ks := 1; ks <= 4; ks++ {
+			for kd := 1; kd <= 4; kd++ {
+				for dis := 1; dis <= 2; dis++ {
+					if run.Thorough() || dis == 1 || (ks+kd+size)%2 == 0 {
+						combos = append(combos, combo{size, dis, ks, kd})
+					}
+				}
+			}
 		}
-		// through config.Load, from a rotating source
+	}
+	// the size alone, and other sizes with the flag from a rotating source
+	for i, size := range []int{-1000, -2, -1, 0, 0, 1, 1, 2, 3, 5, 1000} {
+		combos = append(combos, combo{size, 0, 1 + i%4, 0})
+		combos = append(combos, combo{size, 1 + i%2, 1 + (i/2)%4, 1 + i%4})
+	}
+	for i := 0; i < run.Scale(20, 400); i++ {
+		combos = append(combos, combo{r.Intn(12) - 4, r.Intn(3), 1 + r.Intn(4), 1 + r.Intn(4)})
+	}
+	for i, c := range combos {
+		size := c.size
 		a := arrangement{}
-		place(r, &a, option{Name: "glob.cache.size", Kind: "int"}, 1+i%4, strconv.Itoa(size))
+		place(r, &a, sizeOpt, c.ks, strconv.Itoa(size))
+		if c.disabled != 0 {
+			place(r, &a, disOpt, c.kd, []string{"", "true", "false"}[c.disabled])
+		}
 		res, ok := runLoad(a)
 		if !ok {
 			run.Exclude("value not expressible in the properties file syntax")
@@ -1052,13 +1095,17 @@ func genGlobCases(run *vh.Run, r *rand.Rand) {
 		}
 		accepted := !res.panicked && res.err == nil && res.cfg != nil
 		configured := size
+		disabled := c.disabled == 1
 		if accepted {
 			configured = res.cfg.GlobCacheSize
+			if c.disabled != 0 && res.cfg.GlobMatchingDisabled != disabled {
+				run.Violation(-1, fmt.Sprintf("glob.matching.disabled=%v loaded as %v", disabled, res.cfg.GlobMatchingDisabled), a)
+			}
 		}
 		if accepted && configured != size {
 			run.Violation(-1, fmt.Sprintf("glob.cache.size=%d loaded as %d", size, configured), a)
 		}
-		// the first requests
+		// what main does with an accepted configuration: build the cache, then the first requests
 		pats := []string{"/foo/*", "*.example.com", "/a/{b,c}", "x?z", "/**", "plain"}
 		var calls, outs []string
 		var sampleCalls []string
@@ -1073,9 +1120,9 @@ func genGlobCases(run *vh.Run, r *rand.Rand) {
 		} else if p, _ := vh.Recover(func() { gc = route.NewGlobCache(configured) }); p {
 			impl = vh.Panic
 		}
-		ncalls := r.Intn(9)
-		if i < 2*len(sizes) {
-			ncalls = 1 + i%3
+		ncalls := 1 + i%3
+		if i%5 == 4 {
+			ncalls = r.Intn(9)
 		}
 		stopped := false
 		for j := 0; j < ncalls; j++ {
@@ -1102,8 +1149,243 @@ func genGlobCases(run *vh.Run, r *rand.Rand) {
 		if impl == "" {
 			impl = vh.Ok(vh.List(outs))
 		}
-		run.Add("glob-cache-size", vh.App("CGlob", vh.Z(int64(size)), vh.Bool(accepted), vh.List(calls), impl),
-			map[string]interface{}{"size": size, "accepted": accepted, "source": 1 + i%4, "patterns": sampleCalls, "impl": impl})
+		class := "glob-cache-size"
+		if c.disabled != 0 {
+			class = "glob-cache-size-x-matching-disabled"
+		}
+		run.Add(class, vh.App("CGlob", vh.Z(int64(size)), vh.Bool(disabled), vh.Bool(accepted), vh.List(calls), impl),
+			map[string]interface{}{"size": size, "glob.matching.disabled": []string{"not given", "true", "false"}[c.disabled], "accepted": accepted,
+				"source_size": c.ks, "source_disabled": c.kd, "patterns": sampleCalls, "impl": impl, "arrangement": a})
+	}
+}
+
+// ---------- histories of Loads in one process ----------
+// fingerprint renders a value structurally (pointers followed, maps sorted, nil and empty
+// distinguished, regexps by their source), so that results can be compared across processes
+// and a live object can be compared with what it was right after its Load.
+func fingerprint(v reflect.Value, sb *strings.Builder, depth int) {
+	if depth > 40 {
+		sb.WriteString("<deep>")
+		return
+	}
+	if !v.IsValid() {
+		sb.WriteString("<invalid>")
+		return
+	}
+	switch v.Kind() {
+	case reflect.Ptr:
+		if v.IsNil() {
+			sb.WriteString("nil")
+			return
+		}
+		if v.Type() == reflect.TypeOf((*regexp.Regexp)(nil)) && v.CanInterface() {
+			sb.WriteString("re:" + strconv.Quote(v.Interface().(*regexp.Regexp).String()))
+			return
+		}
+		sb.WriteString("&")
+		fingerprint(v.Elem(), sb, depth+1)
+	case reflect.Interface:
+		if v.IsNil() {
+			sb.WriteString("nil")
+			return
+		}
+		fingerprint(v.Elem(), sb, depth+1)
+	case reflect.Struct:
+		sb.WriteString(v.Type().Name() + "{")
+		for i := 0; i < v.NumField(); i++ {
+			sb.WriteString(v.Type().Field(i).Name + ":")
+			fingerprint(v.Field(i), sb, depth+1)
+			sb.WriteString(";")
+		}
+		sb.WriteString("}")
+	case reflect.Slice, reflect.Array:
+		if v.Kind() == reflect.Slice && v.IsNil() {
+			sb.WriteString("nil[]")
+			return
+		}
+		sb.WriteString("[")
+		for i := 0; i < v.Len(); i++ {
+			fingerprint(v.Index(i), sb, depth+1)
+			sb.WriteString(",")
+		}
+		sb.WriteString("]")
+	case reflect.Map:
+		if v.IsNil() {
+			sb.WriteString("nilmap")
+			return
+		}
+		var items []string
+		for _, k := range v.MapKeys() {
+			var kb strings.Builder
+			fingerprint(k, &kb, depth+1)
+			kb.WriteString("=>")
+			fingerprint(v.MapIndex(k), &kb, depth+1)
+			items = append(items, kb.String())
+		}
+		sort.Strings(items)
+		sb.WriteString("map{" + strings.Join(items, ",") + "}")
+	case reflect.String:
+		sb.WriteString(strconv.Quote(v.String()))
+	case reflect.Bool:
+		sb.WriteString(strconv.FormatBool(v.Bool()))
+	case reflect.Int, reflect.Int8, reflect.Int16, reflect.Int32, reflect.Int64:
+		sb.WriteString(strconv.FormatInt(v.Int(), 10))
+	case reflect.Uint, reflect.Uint8, reflect.Uint16, reflect.Uint32, reflect.Uint64, reflect.Uintptr:
+		sb.WriteString(strconv.FormatUint(v.Uint(), 10))
+	case reflect.Float32, reflect.Float64:
+		sb.WriteString(strconv.FormatFloat(v.Float(), 'g', -1, 64))
+	case reflect.Func, reflect.Chan, reflect.UnsafePointer:
+		sb.WriteString(fmt.Sprintf("<%s nil=%v>", v.Kind(), v.IsNil()))
+	default:
+		sb.WriteString("<" + v.Kind().String() + ">")
+	}
+}
+
+func fingerprintResult(cfg *config.Config, err error) string {
+	if err != nil {
+		return "error"
+	}
+	var sb strings.Builder
+	fingerprint(reflect.ValueOf(cfg), &sb, 0)
+	return sb.String()
+}
+
+// buildArgs is the argument list runLoad would pass (properties file written if needed).
+func buildArgs(a arrangement) ([]string, bool) {
+	args := []string{"fabio"}
+	if a.Props != nil {
+		path, ok := writeProps(a.Props)
+		if !ok {
+			return nil, false
+		}
+		args = append(args, "-cfg", path)
+	}
+	return append(args, a.Args...), true
+}
+
+// freshProcessFingerprint loads the same inputs in a new process (nothing loaded before).
+func freshProcessFingerprint(args, env []string) (string, bool) {
+	spec, _ := json.Marshal(map[string]interface{}{"Args": args, "Env": env, "Fingerprint": true})
+	cmd := exec.Command(os.Args[0])
+	cmd.Env = append(os.Environ(), "VERIF_C15_CHILD="+string(spec))
+	b, err := cmd.Output()
+	if err != nil {
+		return string(b), false
+	}
+	out := string(b)
+	k := strings.Index(out, "C15-FP ")
+	if k < 0 {
+		return out, false
+	}
+	return strings.TrimSuffix(out[k+len("C15-FP "):], "\n"), true
+}
+
+func genHistoryCases(run *vh.Run, r *rand.Rand, opts []option) {
+	var lists, scalars []option
+	for _, o := range opts {
+		switch {
+		case !isASCII(o.Name):
+		case o.Kind == "stringslice" || o.Kind == "floatslice":
+			lists = append(lists, o)
+		case o.Kind == "duration" || o.Kind == "int" && special[o.Name] == nil:
+			scalars = append(scalars, o)
+		}
+	}
+	if len(lists) == 0 {
+		run.Exclude("no list-valued option registered: history class has nothing to set")
+		return
+	}
+	listValue := func(o option) string {
+		if o.Kind == "floatslice" {
+			return []string{"1,2", "0.5", "3,4,5,6,7,8,9,10,11,12,13,14", " 7 , 8 "}[r.Intn(4)]
+		}
+		return []string{"critical", "maintenance,warning", "a,b,c,d", " x , y "}[r.Intn(4)]
+	}
+	refCache := map[string]string{}
+	for h := 0; h < run.Scale(45, 500); h++ {
+		n := 2 + r.Intn(4)
+		type step struct {
+			o      option
+			set    bool
+			v      string
+			a      arrangement
+			args   []string
+			cfg    *config.Config
+			err    error
+			after  string // fingerprint right after its Load
+			ref    string // fingerprint of a fresh-process Load of the same inputs
+			refOK  bool
+			source int
+		}
+		steps := make([]*step, 0, n)
+		usable := true
+		for i := 0; i < n; i++ {
+			st := &step{o: lists[r.Intn(len(lists))]}
+			switch {
+			case i == 0 && h%3 != 2 || r.Intn(5) < 2: // a list option from some source
+				st.set, st.v, st.source = true, listValue(st.o), 1+r.Intn(4)
+			case r.Intn(4) == 0 && len(scalars) > 0: // some other option
+				st.o = scalars[r.Intn(len(scalars))]
+				st.set, st.source = true, 1+r.Intn(4)
+				st.v, _ = genPair(r, st.o, h)
+			}
+			if st.set {
+				place(r, &st.a, st.o, st.source, st.v)
+			}
+			var ok bool
+			if st.args, ok = buildArgs(st.a); !ok {
+				usable = false
+				break
+			}
+			steps = append(steps, st)
+		}
+		if !usable {
+			run.Exclude("value not expressible in the properties file syntax")
+			continue
+		}
+		panicked := false
+		for _, st := range steps {
+			st := st
+			if p, _ := vh.Recover(func() { st.cfg, st.err = config.Load(st.args, st.a.Env) }); p {
+				panicked = true
+			}
+			st.after = fingerprintResult(st.cfg, st.err)
+			key := strings.Join(st.args, "\x00") + "\x01" + strings.Join(st.a.Env, "\x00")
+			if st.a.Props == nil {
+				if ref, hit := refCache[key]; hit {
+					st.ref, st.refOK = ref, true
+					continue
+				}
+			}
+			st.ref, st.refOK = freshProcessFingerprint(st.args, st.a.Env)
+			if st.refOK && st.a.Props == nil {
+				refCache[key] = st.ref
+			}
+		}
+		var coqSteps, eqRef, stable []string
+		var sample []map[string]interface{}
+		refFailed := false
+		for _, st := range steps {
+			refFailed = refFailed || !st.refOK
+			now := fingerprintResult(st.cfg, st.err)
+			want := vh.None
+			if st.set {
+				want = vh.Some(vh.HxS(st.v))
+			}
+			coqSteps = append(coqSteps, "("+vh.HxS(st.o.Name)+", "+vh.Bool(st.o.Kind == "bool")+", "+st.a.coq()+", "+want+")")
+			eqRef = append(eqRef, vh.Bool(st.refOK && st.after == st.ref))
+			stable = append(stable, vh.Bool(now == st.after))
+			sample = append(sample, map[string]interface{}{"option": st.o.Name, "set": st.set, "value": st.v, "source": st.source,
+				"equals_fresh_process_load": st.refOK && st.after == st.ref, "unchanged_after_later_loads": now == st.after, "err": fmt.Sprint(st.err)})
+		}
+		if refFailed {
+			run.Exclude("fresh-process reference Load failed to run")
+			continue
+		}
+		id := run.Add("load-history", vh.App("CHistory", vh.List(coqSteps), vh.List(eqRef), vh.List(stable)), map[string]interface{}{"steps": sample})
+		if panicked {
+			run.Violation(id, "config.Load panicked in a sequence of well-formed Loads", sample)
+		}
 	}
 }
 
